@@ -48,7 +48,7 @@ class Analysis:
     def known(self, f: FuncInfo) -> bool:
         """Functions confirmed on the reference tree are treated as interface atoms by rules that reason about them by
         name; anything else (a helper extracted later) is inlined."""
-        return f.qualname in self.known_functions
+        return f.qualname in self.known_functions or f.qualname in getattr(self.prog, "renamed", {}).values()
 
     def cfg(self, fi: FuncInfo) -> CFG:
         c = self._cfg.get(fi.qualname)
